@@ -7,6 +7,8 @@ Decided (structure of every path):
   R-SHUT     every shutdown(): nothing happens on a repeated call; on the first call exactly one delegate
              shutdown with the caller's arguments forwarded unchanged, the worker is woken, join only under
              `wait` and after the wake-up
+             (no in-place change of *args / **kwargs before); the executor's own flag is set before the
+             delegate's / base class's shutdown is called
   R-LOOPTOP  every worker loop decides (executor collected?, executor shut down?, interpreter exiting?) on
              every iteration before doing any work, and leaves the loop when any of them says so
   R-LOOPWRAP thread targets are wrapped by executor_loop, which swallows only the 'cannot schedule new
